@@ -467,6 +467,16 @@ func (c *SCIONClient) measureClockOffsetSCION(ctx context.Context, mtrcs *scionC
 			}
 			if authKey != nil {
 				authOpt, err := e2eLayer.FindOption(slayers.OptTypeAuthenticator)
+				if err == nil && len(authOpt.OptData) != scion.PacketAuthOptDataLen {
+					// PacketAuthOptMetadata panics on any other length
+					err = errInvalidPacketAuthenticator
+					if numRetries != maxNumRetries && deadlineIsSet && timebase.Now().Before(deadline) {
+						c.Log.LogAttrs(ctx, slog.LevelInfo, "failed to authenticate packet", slog.Any("error", err))
+						numRetries++
+						continue
+					}
+					return time.Time{}, 0, err
+				}
 				if err == nil {
 					spi, algo := scion.PacketAuthOptMetadata(authOpt)
 					if spi == scion.PacketAuthSPIServer && algo == scion.PacketAuthAlgorithm {
